@@ -149,8 +149,9 @@ def vorticity2d (c : Cfg K) (scale : K) (inj : Option (Nat × K)) (uh : MC K) : 
     | none => base
     | some (m, gam) =>
       let k := wnFlat c.D c.N h
+      -- `-derivative_operator[1].imag * injection_scale * scaling` on the mask `(k₀ = 0, k₁ = m)`
       if k.getD 0 0 == 0 && k.getD 1 0 == (m : Int) then
-        base + (-(lit m) * gam * scaling c.D c.N 2 (unflatten (wavenumberShape c.D c.N) h))
+        base + (-(c.s * (IntCast.intCast (k.getD 1 0) : K)) * gam * scaling c.D c.N 2 (unflatten (wavenumberShape c.D c.N) h))
       else base + 0)
 
 /-- `Leray.__call__` on a `D`-channel spectrum -/
@@ -179,8 +180,12 @@ def projected3d (c : Cfg K) (inj : Option (Nat × K)) (uh : MC K) : MC K :=
     | none => at2 proj i h
     | some (m, gam) =>
       let k := wnFlat c.D c.N h
-      if i = 0 && k.getD 0 0 == 0 && k.getD 1 0 == (m : Int) && k.getD 2 0 == 0 then
-        at2 proj i h + gam * scaling c.D c.N 2 (unflatten (wavenumberShape c.D c.N) h)
+      -- both conjugate modes `(0, ±m, 0)` of `γ sin(m s x₁)`: `∓ i·γ·scaling`
+      let amp := gam * scaling c.D c.N 2 (unflatten (wavenumberShape c.D c.N) h)
+      if i = 0 && k.getD 0 0 == 0 && k.getD 2 0 == 0 && k.getD 1 0 == (m : Int) then
+        at2 proj i h + (-(HasI.I) * amp)
+      else if i = 0 && k.getD 0 0 == 0 && k.getD 2 0 == 0 && k.getD 1 0 == -(m : Int) then
+        at2 proj i h + HasI.I * amp
       else at2 proj i h + 0)
 
 /-- pointwise reaction terms on physical values (channels as a list) -/
